@@ -469,12 +469,17 @@ def execute_c03(scenario: Dict) -> Dict:
         qd = scenario["queries"][task.qi]
         share = "none"
         same_query_overlap = False
+        expression_overlap = False
         for o in task.overlaps:
             s = sharing_between(scenario, task.qi, tasks[o].qi)
             if SHARE_RANK[s] > SHARE_RANK[share]:
                 share = s
             if tasks[o].qi == task.qi:
                 same_query_overlap = True
+            # a condition node / sub-query object used at more than one place (in both queries, or - for two
+            # evaluations of one query - anywhere in it) is evaluated by both live evaluations
+            if query_shared_ids(qd) & query_shared_ids(scenario["queries"][tasks[o].qi]):
+                expression_overlap = True
         kinds = sorted(
             {
                 next((d["kind"] for d in scenario["domains"] if d["id"] == scenario["vars"][v]["dom"]), "?")
@@ -489,6 +494,7 @@ def execute_c03(scenario: Dict) -> Dict:
             "overlap": bool(task.overlaps),
             "shares": share,
             "same_query_overlap": same_query_overlap,
+            "shared_node_overlap": expression_overlap,
             "reevaluation": task.qi in task.before,
             "domain_kinds": kinds,
             "failure": failure,
@@ -766,7 +772,7 @@ def same_class(a: Dict, b: Dict) -> bool:
     fa, fb = a["features"], b["features"]
     if a["rule"] == "C03.R3" and fa.get("failure") != fb.get("failure"):
         return False
-    keys = ("rule_query", "same_query_overlap", "overlap", "phase", "via")
+    keys = ("rule_query", "same_query_overlap", "shared_node_overlap", "overlap", "phase", "via")
     return all(fa.get(k) == fb.get(k) for k in keys)
 
 
@@ -780,6 +786,26 @@ def neutralise(scenario: Dict, name: str, verdict: Dict) -> Optional[Dict]:
     serialise_same_query: delete every other evaluation of the target task's query
     whose lifetime can overlap the target's.
     """
+    if name == "unshare_expressions":
+        # every query gets its own copy of each shared condition node / sub-query object
+        import copy as _copy
+
+        out = _copy.deepcopy(scenario)
+
+        def expand(e):
+            if isinstance(e, list):
+                if e and e[0] == "shared" and e[1] < len(scenario.get("shared", [])):
+                    return expand(_copy.deepcopy(scenario["shared"][e[1]]))
+                if e and e[0] == "subq" and e[1] < len(scenario.get("subqueries", [])):
+                    out.setdefault("subqueries", []).append(_copy.deepcopy(scenario["subqueries"][e[1]]))
+                    return ["subq", len(out["subqueries"]) - 1]
+                return [expand(x) for x in e]
+            if isinstance(e, dict):
+                return {k: expand(v) for k, v in e.items()}
+            return e
+
+        out["queries"] = [expand(q) for q in scenario["queries"]]
+        return out
     if name != "serialise_same_query":
         return None
     target = verdict["features"].get("task")
